@@ -266,7 +266,7 @@ def _ens_rt(ctx, st, ret):
 from pyvc.core import SymList    # noqa: E402
 def mk_retarget(prefix):
     return Contract("%s.as_encoded_array[re-target alphabet -> alphabet]" % prefix, target=_AEA, setup=_setup_rt,
-                    requires=lambda ctx, st: [st.n >= 1, st.ns >= 1, st.nt >= 1,
+                    requires=lambda ctx, st: [st.n >= 0, st.ns >= 1, st.nt >= 1,
                                               Forall(lambda i: Implies(in_range(i, st.n), And(st.code(i) >= 0, st.code(i) < st.ns)), triggers=[st.code], name="codes are codes of the source alphabet")],
                     ensures=_ens_rt, raises={"EncodingException": lambda ctx, st: []},
                     canaries=[("largest code not compared", "get_alphabet()[:m + 1] == target_encoding.get_alphabet()[:m + 1]", "get_alphabet()[:m] == target_encoding.get_alphabet()[:m]"),
